@@ -611,7 +611,35 @@ def _volvar_suites(tier):
         if not (v0 >= 0 and _close(v0, v1, 1e-6)):
             cinv.disagree(kind="volvar-inv", x=x.tolist(), w=w.tolist(), A=A.tolist(), b=b.tolist(), c=cs, impl=v1, model=v0)
         cinv.sample({"n": n, "d": d, "v": v0, "v_transformed": v1})
-    return [cref, cinv]
+    # ill-conditioned affine maps (cond(A) up to ~3e5: the statement goes to 1e6): the tolerance follows the conditioning of the
+    # transformed covariance, 20 * eps * cond(S) * cond(A)^2 (measured on the unchanged code: the error stays below 0.6 of
+    # eps * cond(S) * cond(A)^2); cases whose tolerance would exceed 2 % are not generated
+    cill = Corr("volvar-invariance-illcond", "toleranced (20*eps*cond(S)*cond(A)^2 + 1e-6)")
+    n_ill = 60 if tier == "quick" else 500
+    made = 0
+    while made < n_ill:
+        d = rng.randint(2, 5)
+        n = rng.randint(5 * d, 5 * d + 60)
+        x = npr.standard_normal((n, d)) @ _cond_matrix(npr, d, 10.0 ** rng.uniform(0, 0.7)).T + npr.uniform(-5, 5, d)
+        w = np.exp(npr.uniform(0, math.log(10.0 ** rng.uniform(0, 2)) + 1e-12, n))
+        A = _cond_matrix(npr, d, 10.0 ** rng.uniform(3, 5.5))
+        b = npr.uniform(-100, 100, d)
+        wn = w / w.sum()
+        xc = x - (x * wn[:, None]).sum(0)
+        kS = float(np.linalg.cond(xc.T @ (xc * wn[:, None])))
+        kA = float(np.linalg.cond(A))
+        tol = 20 * 2.2e-16 * kS * kA * kA + 1e-6
+        if tol > 0.02:
+            continue
+        made += 1
+        v0 = _real_volvar(x, w)
+        v1 = _real_volvar(x @ A.T + b, w)
+        cill.case(([f2hex(t) for t in x.ravel()[:8]], f2hex(kA)), True)
+        cill.count(f"condA=1e{int(math.log10(kA))}")
+        if not (v0 >= 0 and _close(v0, v1, tol)):
+            cill.disagree(kind="volvar-inv-ill", x=x.tolist(), w=w.tolist(), A=A.tolist(), b=b.tolist(), c=1.0, impl=v1, model=v0, tol=tol)
+        cill.sample({"n": n, "d": d, "condA": kA, "v": v0, "v_transformed": v1, "tol": tol})
+    return [cref, cinv, cill]
 
 
 def correspond(tier):
@@ -718,11 +746,12 @@ def oracle_volvar(x, w, A=None, b=None, cs=None, exact=False):
         xc = x - (x * wn[:, None]).sum(0)
         kS = np.linalg.cond(xc.T @ (xc * wn[:, None]))
         kA = np.linalg.cond(A)
-        if kS * kA * kA > 1e9:
-            return None      # outside the well-conditioned regime where a fixed tolerance is meaningful
+        tol = 20 * 2.2e-16 * kS * kA * kA + 1e-6
+        if tol > 0.02:
+            return None      # conditioning too poor for any fixed-precision comparison to be meaningful
         v1 = _real_volvar(x @ A.T + bb, wv)
-        if not _close(v0, v1, 1e-6):
-            return f"not affine invariant (cond A = {kA:.3g}): {v0!r} vs {v1!r}"
+        if not _close(v0, v1, tol):
+            return f"not affine invariant (cond A = {kA:.3g}, tolerance {tol:.2g}): {v0!r} vs {v1!r}"
     return None
 
 
@@ -754,7 +783,7 @@ def search(tier, hints):
                 m = oracle_volvar(h["x"], h["w"], exact=True)
                 if m and add("volvar", m, x=h["x"], w=h["w"], exact=True):
                     return found
-            elif h.get("kind") == "volvar-inv":
+            elif h.get("kind") in ("volvar-inv", "volvar-inv-ill"):
                 m = oracle_volvar(h["x"], h["w"], h["A"], h["b"], h["c"])
                 if m and add("volvar", m, x=h["x"], w=h["w"], A=h["A"], b=h["b"], c=h["c"]):
                     return found
